@@ -135,8 +135,8 @@ Proof.
   - intros c rs th thy el ely IHt IHe H m HZ. rewrite gok_stmt_if in H.
     repeat (apply andb_true_iff in H; destruct H as [H ?]).
     rewrite exec_stmt_if. unfold exec_if. destruct (env m c =? 0).
-    + pose proof (IHe H0 m HZ) as H2. apply Zi_set. apply Ze_bind; [|exact H2]. apply gzip_zl; assumption.
-    + pose proof (IHt H1 m HZ) as H2. apply Zi_set. apply Ze_bind; [|exact H2]. apply gzip_zl; assumption.
+    + pose proof (IHe H0 m HZ) as Hz. apply Zi_set. apply Ze_bind; [|exact Hz]. apply gzip_zl; assumption.
+    + pose proof (IHt H1 m HZ) as Hz. apply Zi_set. apply Ze_bind; [|exact Hz]. apply gzip_zl; assumption.
   - intros _ m HZ. exact HZ.
   - intros s b Hs Hb H m HZ. simpl in H. apply andb_true_iff in H. destruct H as [H1 H2].
     simpl. apply Hb; [exact H2|]. apply Hs; assumption.
